@@ -536,4 +536,7 @@ pub fn run(ctx: &mut Ctx) {
             Ok(t) => if t != expect { ctx.oracle_fail("the schema statement does not parse into exactly the declared elements", serde_json::json!({"class": c.class, "backend": b.name(), "statement": c.what, "sql": sql, "parsed": t.show(), "expected": expect.show()})); },
         }
     }
+    // the same builders through the Lean schema-statement model (MySQL and Postgres dialects)
+    let k = if ctx.tier_thorough { 40000 } else { 4000 };
+    crate::ddl::run_stream(ctx, &[B::Mysql, B::Postgres], k);
 }
